@@ -111,6 +111,48 @@ theorem foldl_filter_bothInf (items : List (G1 × G2)) : ∀ acc : Fp12, acc.Red
       exact ih _ (Fp12.mul_reduced _ _)
 
 
+/-! ### square roots, sign bit -/
+
+theorem powModAux_lt (p : Nat) (hp : 0 < p) : ∀ (fuel b e acc : Nat), acc < p → powModAux p fuel b e acc < p := by
+  intro fuel
+  induction fuel with
+  | zero => intro b e acc h; simpa [powModAux] using h
+  | succ n ih =>
+    intro b e acc h
+    unfold powModAux
+    split
+    · exact h
+    · apply ih
+      split
+      · exact Nat.mod_lt _ hp
+      · exact h
+
+theorem powMod_lt (p b e : Nat) (hp : 0 < p) : powMod p b e < p :=
+  powModAux_lt p hp _ _ _ _ (Nat.mod_lt _ hp)
+
+theorem sqrtMod_lt {p a y : Nat} (hp : 0 < p) (h : sqrtMod p a = some y) : y < p := by
+  unfold sqrtMod at h
+  simp only at h
+  split at h
+  · cases h; exact powMod_lt _ _ _ hp
+  · cases h
+
+/-- facts about xor with the sign bit on one byte -/
+theorem xor32_facts : ∀ n, n < 256 →
+    (n ^^^ 32) / 128 = n / 128 ∧ (n ^^^ 32) / 64 % 2 = n / 64 % 2 ∧ (n ^^^ 32) % 32 = n % 32 ∧
+    (n ^^^ 32) / 32 % 2 = 1 - n / 32 % 2 ∧ ((n ^^^ 32) = 0xc0 ↔ n = 0xe0) := by decide +kernel
+
+theorem negMod_negMod {y : Nat} (h : y < Bls.p) : negMod Bls.p (negMod Bls.p y) = y := by
+  unfold negMod Bls.p at *
+  omega
+
+theorem fpIsLarger_negMod {y : Nat} (h : y < Bls.p) (h0 : y ≠ 0) : fpIsLarger (negMod Bls.p y) = !fpIsLarger y := by
+  unfold fpIsLarger negMod Bls.p at *
+  by_cases hy : y > (0x1a0111ea397fe69a4b1ba7b6434bacd764774b84f38512bf6730d2a0f6b0f6241eabfffeb153ffffb9feffffffffaaab - 1) / 2
+  · simp only [hy, decide_true, Bool.not_true, decide_eq_false_iff_not]; omega
+  · simp only [hy, decide_false, Bool.not_false, decide_eq_true_eq]; omega
+
+
 /-! ### small facts used by Props/C32 -/
 open Ops in
 theorem groupOrder_pos : (0 : Int) < (Gen.Crypto.groupOrder : Int) := by
